@@ -1,5 +1,5 @@
 (* C16 - names as documented; path-derived specs.  Statements only. *)
-Require Import FL.Base.Bytes FL.Base.BytesFacts FL.Base.PathName FL.Names.FileSpec FL.Flw.Model FL.Oracles.O_Names.
+Require Import FL.Base.Bytes FL.Base.BytesFacts FL.Base.PathName FL.Names.FileSpec FL.Flw.Model FL.Oracles.O_Names FL.Oracles.ReaderOrder FL.Names.FamilyFacts.
 
 Lemma rfind_byte_spec c s i : rfind_byte c s = Some i -> s = firstn i s ++ c :: skipn (S i) s.
 Proof.
@@ -29,6 +29,15 @@ Proof.
     try (destruct t as [|t0 tr]; [exfalso; apply Ht; reflexivity|]); cbn [filter join app]; rewrite <- ?app_assoc; reflexivity.
 Qed.
 
+(* a name built from the parts is recognised again with the same infix (unless the name ends with .gz, which
+   stands for a compressed file): building and recognising family names are inverse to each other *)
+Theorem C16_name_roundtrip : forall sp fixed infix,
+  infix <> [] ->
+  strip_suffix (dot :: gz_sfx) (as_name sp fixed (Some infix)) = None ->
+  full_infix sp fixed (as_name sp fixed (Some infix)) = Some infix.
+Proof. exact full_infix_as_name. Qed.
+
 Check C16_stem_ext_roundtrip. Check C16_doc_fixed_is_fixed.
 Print Assumptions C16_stem_ext_roundtrip.
 Print Assumptions C16_doc_fixed_is_fixed.
+Print Assumptions C16_name_roundtrip.
